@@ -1275,3 +1275,38 @@ def m_checked(I, st, info, args, depth):
     for s2, t in fork_bool(I, st, c):
         out.append((s2, "return", some(r) if t else none()))
     return out
+
+
+# ------------------------------------------------------------------ SAFE table: std inspection / iterator functions that do not panic by themselves
+SAFE_STD = (r"^core::str::<impl str>::(bytes|chars|char_indices|trim|trim_start|trim_end|trim_matches|starts_with|ends_with|contains|find|rfind|eq_ignore_ascii_case|is_char_boundary|"
+            r"to_lowercase|to_uppercase|to_ascii_lowercase|to_ascii_uppercase|get|as_ptr|lines|split_once|rsplit_once|strip_prefix|strip_suffix|parse|is_ascii|nth|rsplitn|split_terminator|matches)$|"
+            r"^alloc::str::<impl str>::(to_lowercase|to_uppercase|repeat|replace|to_ascii_lowercase|to_ascii_uppercase)$|"
+            r"^core::iter::traits::iterator::Iterator::(zip|map|filter|filter_map|enumerate|rev|skip|take|chain|cloned|copied|peekable|count|all|any|nth|last|position|sum|min|max|find|find_map|for_each|flat_map|flatten|take_while|skip_while|eq|cmp|by_ref|size_hint|map_while|inspect|fuse|step_by)$|"
+            r"^core::iter::traits::double_ended::DoubleEndedIterator::(next_back|rev|rfold|rfind|nth_back)$|"
+            r"^core::slice::<impl \[T\]>::(get|first|last|iter_mut|starts_with|ends_with|chunks|chunks_exact|chunks_exact_mut|windows|split_first|split_last|to_owned|concat|is_sorted|binary_search|split_at_checked|get_mut|fill|reverse|as_ptr)$|"
+            r"^alloc::vec::Vec::<T, A>::(get|first|last|clear|truncate|reserve|capacity|pop|iter|as_ptr|shrink_to_fit|dedup|retain|append|is_empty)$|"
+            r"^alloc::string::String::(push_str|push|clear|capacity|with_capacity|from_utf8_lossy|truncate|pop|reserve)$|^core::char::methods::<impl char>::|^core::num::<impl u8>::(is_ascii|to_ascii|eq_ignore)|"
+            r"^core::option::Option::<T>::(and_then|or|or_else|map_or|map_or_else|zip|and|xor|get_or_insert_with|insert|replace|iter|is_some_and|inspect|flatten|ok_or)$|"
+            r"^core::result::Result::<T, E>::(and_then|or|or_else|map_or|map_or_else|and|iter|is_ok_and|is_err_and|inspect|inspect_err|err|as_ref|copied|cloned)$|"
+            r"^std::collections::hash::map::HashMap::<K, V, S(, A)?>::(get|iter|keys|values|len|is_empty|get_key_value)$|^std::collections::hash::set::HashSet::<T, S(, A)?>::(contains|get|len|is_empty|iter)$|"
+            r"^serde_json::value::Value::(get|is_string|is_number|is_boolean|is_array|is_object|as_bool|as_i64|as_u64|as_f64|as_array|as_object|pointer)$|^serde_json::map::Map::<.*>::(iter|keys|values|is_empty)$|"
+            r"^core::cmp::(Ord|PartialOrd)::(cmp|partial_cmp|max|min)$|^core::cmp::(min|max)$|^core::mem::(size_of|align_of)")
+
+
+@model(SAFE_STD)
+def m_safe_std(I, st, info, args, depth):
+    """opaque result; closures handed to the function are interpreted once on opaque arguments so that their panic sites are inventoried"""
+    if info["def"] in I.facts.bodies:
+        return None
+    for a in args:
+        f = deref(I, st, a)
+        if isinstance(f, FnV):
+            body = I.facts.bodies.get(f.defn)
+            if body is not None:
+                n = body["arg_count"] - (1 if f.kind == "closure" else 0)
+                s2 = st.clone()
+                for s3, kind, val in I.call_value(s2, f, [Sym("hof_arg%d" % i) for i in range(n)], depth):
+                    if kind == "panic":
+                        return [(s3, kind, val)]
+    name = info["tdef"].split("::")[-1]
+    return ret(st, Sym("%s@%d" % (name, info["ln"])))
